@@ -287,6 +287,7 @@ RESET_TIMER:
 			// Pre-Go 1.23: Reset does not drain the channel;
 			// callers must drain at the goto-site before arriving here.
 			timeout.Reset(time.Until(trd))
+			c = timeout.C // re-enable the select case after a cleared deadline
 		}
 	} else if timeout != nil {
 		timeout.Stop()
@@ -301,6 +302,9 @@ RESET_TIMER:
 		if len(s.bufptr) > 0 {
 			n = copy(b, s.bufptr)
 			s.bufptr = s.bufptr[n:]
+			if len(s.bufptr) > 0 || s.kcp.PeekSize() > 0 {
+				s.notifyReadEvent() // more is left for another blocked reader
+			}
 			s.mu.Unlock()
 			atomic.AddUint64(&DefaultSnmp.BytesReceived, uint64(n))
 			return n, nil
@@ -311,6 +315,9 @@ RESET_TIMER:
 			// from kcp.recv() to 'b', like 'DMA'.
 			if len(b) >= size {
 				s.kcp.Recv(b)
+				if s.kcp.PeekSize() > 0 {
+					s.notifyReadEvent() // more is left for another blocked reader
+				}
 				s.mu.Unlock()
 				atomic.AddUint64(&DefaultSnmp.BytesReceived, uint64(size))
 				return size, nil
@@ -328,6 +335,9 @@ RESET_TIMER:
 			s.kcp.Recv(s.recvbuf)    // read data to recvbuf first
 			n = copy(b, s.recvbuf)   // then copy bytes to 'b' as many as possible
 			s.bufptr = s.recvbuf[n:] // pointer update
+			if len(s.bufptr) > 0 || s.kcp.PeekSize() > 0 {
+				s.notifyReadEvent() // more is left for another blocked reader
+			}
 
 			s.mu.Unlock()
 			atomic.AddUint64(&DefaultSnmp.BytesReceived, uint64(n))
@@ -347,8 +357,9 @@ RESET_TIMER:
 					default:
 					}
 				}
-				goto RESET_TIMER
 			}
+			// also without a timer: a deadline may have been set meanwhile
+			goto RESET_TIMER
 		case <-c:
 			return 0, errors.WithStack(errTimeout)
 		case <-s.chSocketReadError:
@@ -377,6 +388,7 @@ RESET_TIMER:
 			// Pre-Go 1.23: Reset does not drain the channel;
 			// callers must drain at the goto-site before arriving here.
 			timeout.Reset(time.Until(twd))
+			c = timeout.C // re-enable the select case after a cleared deadline
 		}
 	} else if timeout != nil {
 		timeout.Stop()
@@ -420,6 +432,9 @@ RESET_TIMER:
 				// we don't have to wait until the periodical update() procedure uncorks.
 				s.kcp.flush(IKCP_FLUSH_FULL)
 			}
+			if s.kcp.WaitSnd() < int(s.kcp.snd_wnd) {
+				s.notifyWriteEvent() // room is left for another blocked writer
+			}
 			s.mu.Unlock()
 			atomic.AddUint64(&DefaultSnmp.BytesSent, uint64(n))
 			return n, nil
@@ -438,8 +453,9 @@ RESET_TIMER:
 					default:
 					}
 				}
-				goto RESET_TIMER
 			}
+			// also without a timer: a deadline may have been set meanwhile
+			goto RESET_TIMER
 		case <-c:
 			return 0, errors.WithStack(errTimeout)
 		case <-s.chSocketWriteError:
